@@ -3,7 +3,7 @@
   Property theorems only (helper lemmas: PygProofs/Lemmas/FilterLemmas.lean).
 
   `Table.sat t conds i` says that row `i` of `t` satisfies every column condition of `conds`
-  (`Cond.test` is `_row_check`: `is None`, `is_nan`, literal-regex search, membership under python `==`).
+  (`Cond.test` is the repaired `_row_check`: `is None`, NaN, `pattern.search` as an arbitrary function, membership by value).
   All theorems are about the model `Table.inc / exc / find` of PygModel/Filter.lean, which follows the
   code's sequential masks, `and_` + negation and the empty-result fix-ups, for EVERY rectangular table,
   every list of conditions on existing columns and every total row predicate.
@@ -13,8 +13,13 @@
     * columns kept even when no row survives .......................... `cols_kept`, `inc_nothing`
     * inc with no condition is the identity ........................... `inc_nil`
     * inc is idempotent ............................................... `inc_idem`
-    * single callables ................................................ `inc_pred`, `exc_pred`, `partition_pred`
-    * find_<col> ...................................................... `find_unique`, `find_spec`
+    * single callables ................................................ `inc_pred`, `exc_pred`, `partition_pred` (index
+      predicates), `inc_fn`, `exc_fn` (any callable answering on every row), `inc_rowpred`, `exc_rowpred`,
+      `partition_rowpred`, `inc_idem_rowpred` (predicates of the row's cells), `inc_fn_error` (a callable that raises)
+    * find_<col> ...................................................... `find_unique`, `find_spec`, `find_fn`
+    * a key that is not a column ...................................... `inc_missing_key`, `exc_missing_key(_empty)`
+    * what a condition means, stated without `Cond.test` .............. `valEq_iff`, `isNaN_iff`, `isNone_iff`, `oneOf_iff`,
+      `regex_iff`, `ofValue_one`; the regex is ANY `String → Bool`; the driver's matcher on literals: `search_lit`
 -/
 import PygProofs.Lemmas.FilterLemmas
 
@@ -231,6 +236,125 @@ theorem partition_pred (t : Table) (n : Nat) (hr : t.Rect n) (hne : t ≠ []) (p
   · rw [rows_gatherRows hne, rows_gatherRows hne, ← List.map_append, rows, nrows_of_rect hr hne]
     exact (List.filter_append_perm _ _).map _
 
+/-! ### callables as predicates of the ROW (its cells), callables that raise -/
+
+/-- the record a callable receives for row `i`: column name ↦ cell -/
+def rowDict (t : Table) (i : Nat) : List (String × Cell) := t.map fun c => (c.1, c.2.getD i .none)
+
+theorem rowDict_gatherRows (t : Table) (idx : List Nat) (j : Nat) (hj : j < idx.length) :
+    rowDict (t.gatherRows idx) j = rowDict t idx[j] := by
+  simp [rowDict, gatherRows, List.map_map, Function.comp_def, List.getD_eq_getElem?_getD, hj]
+
+/-- **inc with any callable** `f` (it receives the table it filters and the row index) that answers `p i`
+on every row `i` of `t`: exactly the rows where the answer is true, in order, all columns -/
+theorem inc_fn (t : Table) (n : Nat) (hr : t.Rect n) (hne : t ≠ []) (f : Table → Nat → Except Err Bool)
+    (p : Nat → Bool) (hf : ∀ i < n, f t i = .ok (p i)) :
+    t.inc (some f) [] = .ok (t.gatherRows ((List.range n).filter p)) := by
+  simp only [inc, Option.isNone_some, Bool.false_and, Bool.false_eq_true, if_false, keepRows_ok hr hne (f t) p hf]
+  by_cases he : ((List.range n).filter p).isEmpty = true
+  · have : (List.range n).filter p = [] := by simpa using he
+    rw [if_pos he, this]
+    simp [incSteps, fixup, nrows, emptyLike_eq_gather]
+  · rw [if_neg he]
+    simp only [incSteps]
+    rw [fixup_gather hne]
+
+theorem exc_fn (t : Table) (n : Nat) (hr : t.Rect n) (hne : t ≠ []) (f : Table → Nat → Except Err Bool)
+    (p : Nat → Bool) (hf : ∀ i < n, f t i = .ok (p i)) :
+    t.exc (some f) [] = .ok (t.gatherRows ((List.range n).filter fun i => !p i)) := by
+  have hk := keepRows_ok hr hne (fun i => (f t i).map (!·)) (fun i => !p i) (fun i hi => by simp [hf i hi, Except.map])
+  simp only [exc, Option.isNone_some, Bool.false_and, Bool.false_eq_true, if_false,
+    List.isEmpty_nil, Bool.not_true] at hk ⊢
+  rw [hk]
+  by_cases he : ((List.range n).filter fun i => !p i).isEmpty = true
+  · have : (List.range n).filter (fun i => !p i) = [] := by simpa using he
+    rw [if_pos he, this]
+    simp [fixup, nrows, emptyLike_eq_gather]
+  · rw [if_neg he]
+    simp only
+    rw [fixup_gather hne]
+
+/-- **a predicate `q` of the row's cells** (`lambda a, b: ...` called with the record): `inc` keeps exactly the
+records satisfying `q`, `exc` the others -/
+theorem inc_rowpred (t : Table) (n : Nat) (hr : t.Rect n) (hne : t ≠ []) (q : List (String × Cell) → Bool) :
+    t.inc (some fun t' i => .ok (q (rowDict t' i))) [] =
+      .ok (t.gatherRows ((List.range n).filter fun i => q (rowDict t i))) :=
+  inc_fn t n hr hne _ (fun i => q (rowDict t i)) (fun _ _ => rfl)
+
+theorem exc_rowpred (t : Table) (n : Nat) (hr : t.Rect n) (hne : t ≠ []) (q : List (String × Cell) → Bool) :
+    t.exc (some fun t' i => .ok (q (rowDict t' i))) [] =
+      .ok (t.gatherRows ((List.range n).filter fun i => !q (rowDict t i))) :=
+  exc_fn t n hr hne _ (fun i => q (rowDict t i)) (fun _ _ => rfl)
+
+/-- `inc`/`exc` by a row predicate partition the records -/
+theorem partition_rowpred (t : Table) (n : Nat) (hr : t.Rect n) (hne : t ≠ []) (q : List (String × Cell) → Bool) :
+    ∃ ti te, t.inc (some fun t' i => .ok (q (rowDict t' i))) [] = .ok ti ∧
+      t.exc (some fun t' i => .ok (q (rowDict t' i))) [] = .ok te ∧
+      ti.cols = t.cols ∧ te.cols = t.cols ∧ ti.rows.Sublist t.rows ∧ te.rows.Sublist t.rows ∧
+      (ti.rows ++ te.rows).Perm t.rows := by
+  refine ⟨_, _, inc_rowpred t n hr hne q, exc_rowpred t n hr hne q, cols_gatherRows _ _, cols_gatherRows _ _, ?_, ?_, ?_⟩
+  · rw [rows_gatherRows hne, rows, nrows_of_rect hr hne]; exact List.Sublist.map _ List.filter_sublist
+  · rw [rows_gatherRows hne, rows, nrows_of_rect hr hne]; exact List.Sublist.map _ List.filter_sublist
+  · rw [rows_gatherRows hne, rows_gatherRows hne, ← List.map_append, rows, nrows_of_rect hr hne]
+    exact (List.filter_append_perm _ _).map _
+
+/-- **idempotence for a row predicate**: the callable is evaluated again on the RESULT table, whose records
+are records of `t` that satisfied it -/
+theorem inc_idem_rowpred (t ti : Table) (n : Nat) (hr : t.Rect n) (hne : t ≠ []) (q : List (String × Cell) → Bool)
+    (h : t.inc (some fun t' i => .ok (q (rowDict t' i))) [] = .ok ti) :
+    ti.inc (some fun t' i => .ok (q (rowDict t' i))) [] = .ok ti := by
+  rw [inc_rowpred t n hr hne q] at h
+  cases h
+  have hr' := gatherRows_rect t ((List.range n).filter fun i => q (rowDict t i))
+  rw [inc_fn _ _ hr' (gatherRows_ne_nil hne _) _ (fun _ => true)]
+  · rw [List.filter_eq_self.2 (fun _ _ => rfl), gatherRows_range hr']
+  · intro j hj
+    have hmem := List.getElem_mem hj
+    have hsat := (List.mem_filter.1 hmem).2
+    simp only [rowDict_gatherRows t _ j hj]
+    rw [hsat]
+
+/-- **a callable that raises** on row `i` (e.g. `TypeError`: a parameter that is not a column), having answered
+on the rows before it: `inc` and `exc` raise that error, whatever the keyword conditions -/
+theorem inc_fn_error (t : Table) (n : Nat) (hr : t.Rect n) (hne : t ≠ []) (f : Table → Nat → Except Err Bool)
+    (conds : List (String × Cond)) (i : Nat) (hi : i < n) (e : Err) (he : f t i = .error e)
+    (hb : ∀ j < i, ∃ b, f t j = .ok b) :
+    t.inc (some f) conds = .error e ∧ t.exc (some f) conds = .error e := by
+  constructor
+  · simp only [inc, Option.isNone_some, Bool.false_and, Bool.false_eq_true, if_false,
+      keepRows_error hr hne (f t) i hi e he hb]
+  · have := keepRows_error hr hne (fun i => (f t i).map (!·)) i hi e (by simp [he, Except.map])
+      (fun j hj => by obtain ⟨b, h⟩ := hb j hj; exact ⟨!b, by simp [h, Except.map]⟩)
+    simp only [exc, Option.isNone_some, Bool.false_and, Bool.false_eq_true, if_false, this]
+
+/-! ### exc with a key that is not a column -/
+
+/-- **exc, missing key**: with at least one row `_row_check` reads `row[key]` and raises `KeyError` -/
+theorem exc_missing_key (t : Table) (n : Nat) (hr : t.Rect n) (hne : t ≠ []) (hn : n ≠ 0)
+    (conds : List (String × Cond)) (h : ∃ kc ∈ conds, t.has kc.1 = false) :
+    t.exc Option.none conds = .error .key := by
+  have hc : conds ≠ [] := by rintro rfl; obtain ⟨_, hm, _⟩ := h; cases hm
+  obtain ⟨kc, rest, rfl⟩ := List.exists_cons_of_ne_nil hc
+  have hnr := nrows_of_rect hr hne
+  obtain ⟨m, rfl⟩ := Nat.exists_eq_succ_of_ne_zero hn
+  have h0 : t.excFlag (kc :: rest) 0 = .error .key := by
+    unfold excFlag; rw [mapE_rowCheck_missing 0 _ h]
+  have hm : mapE (t.excFlag (kc :: rest)) (List.range (m + 1)) = .error .key :=
+    mapE_error_at _ _ _ 0 (by simp) (by simpa using h0) (fun j hj => by cases hj)
+  simp only [exc, Option.isNone_none, List.isEmpty_cons, Bool.and_false, Bool.false_eq_true, if_false,
+    Bool.not_false, Bool.true_and, hnr, hm]
+  simp
+
+/-- … and without rows nothing is read: the (empty) table comes back with its columns -/
+theorem exc_missing_key_empty (t : Table) (hr : t.Rect 0) (hne : t ≠ []) (conds : List (String × Cond)) :
+    t.exc Option.none conds = .ok t := by
+  have hnr := nrows_of_rect hr hne
+  have he : t.emptyLike = t := by rw [emptyLike_eq_gather]; exact gatherRows_range (n := 0) hr
+  cases conds with
+  | nil => rfl
+  | cons kc rest =>
+    simp [exc, hnr, fixup, he]
+
 /-! ### find_<col> -/
 
 /-- `find_<key>(**conds)` looks at the values of column `key` in the rows `inc` selects: it raises
@@ -241,7 +365,7 @@ theorem find_spec (t : Table) (n : Nat) (hr : t.Rect n) (key : String) (col : Li
     t.find key Option.none conds =
       match ((List.range n).filter (t.sat conds)).map fun i => col.getD i .none with
       | [] => .error .value
-      | x :: rest => if rest.all (x.pyEq ·) then .ok x else .error .value := by
+      | x :: rest => if rest.all (x.valEq ·) then .ok x else .error .value := by
   have hne : t ≠ [] := by intro he; subst he; simp [col?] at hcol
   have hh : t.has key = true := (has_iff_col? t key).2 ⟨col, hcol⟩
   simp only [find, hh, Bool.not_true, Bool.false_eq_true, if_false, inc_filter t n hr conds hk,
@@ -257,14 +381,14 @@ theorem find_unique (t : Table) (n : Nat) (hr : t.Rect n) (key : String) (col : 
     (v : Cell) :
     (t.find key Option.none conds = .ok v ↔
       ∃ rest, (((List.range n).filter (t.sat conds)).map fun i => col.getD i .none) = v :: rest ∧
-        ∀ x ∈ rest, v.pyEq x = true) ∧
+        ∀ x ∈ rest, v.valEq x = true) ∧
     (∀ e, t.find key Option.none conds = .error e → e = .value) := by
   rw [find_spec t n hr key col hcol conds hk]
   cases ((List.range n).filter (t.sat conds)).map fun i => col.getD i .none with
   | nil => simp
   | cons x rest =>
     simp only
-    by_cases hall : rest.all (x.pyEq ·) = true
+    by_cases hall : rest.all (x.valEq ·) = true
     · simp only [hall, if_true, Except.ok.injEq, List.cons.injEq]
       constructor
       · constructor
@@ -281,20 +405,116 @@ theorem find_unique (t : Table) (n : Nat) (hr : t.Rect n) (key : String) (col : 
           exact absurd (List.all_eq_true.2 h2) hall
       · intro e h; cases h; rfl
 
+/-- `find_<key>(f)` with a callable that answers `p i` on every row: the same reading as `find_spec` -/
+theorem find_fn (t : Table) (n : Nat) (hr : t.Rect n) (key : String) (col : List Cell)
+    (hcol : t.col? key = some col) (f : Table → Nat → Except Err Bool) (p : Nat → Bool)
+    (hf : ∀ i < n, f t i = .ok (p i)) :
+    t.find key (some f) [] =
+      match ((List.range n).filter p).map fun i => col.getD i .none with
+      | [] => .error .value
+      | x :: rest => if rest.all (x.valEq ·) then .ok x else .error .value := by
+  have hne : t ≠ [] := by intro he; subst he; simp [col?] at hcol
+  have hh : t.has key = true := (has_iff_col? t key).2 ⟨col, hcol⟩
+  simp only [find, hh, Bool.not_true, Bool.false_eq_true, if_false, inc_fn t n hr hne f p hf,
+    nrows_gatherRows hne, getColE, col?_gatherRows, hcol, Option.map_some]
+  cases hidx : (List.range n).filter p with
+  | nil => simp
+  | cons i rest => simp
+
+/-! ### what the conditions mean (independent of `Cond.test`'s definition) -/
+
+/-- equality of cells as values, spelled out: both NaN, both None, the same string / datetime / infinity, or
+numbers (bools, ints, floats in quarters) of equal value; nothing else -/
+def sameValue : Cell → Cell → Prop
+  | .nan, .nan => True
+  | .none, .none => True
+  | .pinf, .pinf => True
+  | .ninf, .ninf => True
+  | .str a, .str b => a = b
+  | .dt a, .dt b => a = b
+  | a, b =>
+    let num : Cell → Option Int := fun c => match c with
+      | .bool b => some (if b then 4 else 0) | .int n => some (4 * n) | .flt q => some q | _ => Option.none
+    ∃ x, num a = some x ∧ num b = some x
+
+theorem valEq_iff (a b : Cell) : a.valEq b = true ↔ sameValue a b := by
+  cases a <;> cases b <;> simp [Cell.valEq, Cell.pyEq, sameValue] <;> (try decide) <;> (try omega)
+
+/-- the NaN condition holds of NaN cells only (not of ±inf, not of None) -/
+theorem isNaN_iff (c : Cell) : Cond.isNaN.test c = true ↔ c = .nan := by simp [Cond.test]
+
+theorem isNone_iff (c : Cell) : Cond.isNone.test c = true ↔ c = .none := by simp [Cond.test]
+
+/-- a list of admissible values: the cell has the same value as one of them (so a NaN cell is selected iff
+NaN is admissible, whichever objects hold the NaNs; `1`, `1.0` and `True` are one value) -/
+theorem oneOf_iff (vs : List Cell) (c : Cell) : (Cond.oneOf vs).test c = true ↔ ∃ v ∈ vs, sameValue v c := by
+  simp [Cond.test, valEq_iff]
+
+/-- a regex condition never holds of a cell that is not a string, and is the search function on strings -/
+theorem regex_iff (m : String → Bool) (c : Cell) : (Cond.regex m).test c = true ↔ ∃ s, c = .str s ∧ m s = true := by
+  cases c <;> simp [Cond.test]
+
+/-- a scalar keyword value `v` (not None, not NaN) means "the cell has the value `v`" -/
+theorem ofValue_one (v c : Cell) (h1 : v ≠ .none) (h2 : v ≠ .nan) :
+    (Cond.ofValue (.one v)).test c = true ↔ sameValue v c := by
+  cases v <;> simp_all [Cond.ofValue, Cond.test, valEq_iff]
+
+/-! ### the driver's regex matcher on literal patterns is substring search -/
+
+theorem matchAt_lit (r : RePat) (he : r.eol = false) (hi : r.icase = false) (p cs : List Char) :
+    r.matchAt (p.map some) cs = p.isPrefixOf cs := by
+  induction p generalizing cs with
+  | nil => simp [RePat.matchAt, he]
+  | cons a p ih =>
+    cases cs with
+    | nil => simp [RePat.matchAt]
+    | cons c cs => simp [RePat.matchAt, hi, ih cs, List.isPrefixOf]
+
+/-- a literal pattern (no `^ $ .`, no flag): `search` is substring containment, Python's `p in s` -/
+theorem search_lit (p s : String) : (RePat.lit p).search s = infixB p.toList s.toList := by
+  simp only [RePat.search, RePat.lit, Bool.false_eq_true, if_false]
+  induction s.toList with
+  | nil => cases p.toList <;> simp [tailsOf, infixB, RePat.matchAt]
+  | cons c cs ih => simp [tailsOf, infixB, matchAt_lit, ih]
+
 /-! ### non-vacuity -/
 
 def tbl : Table := [("a", [.int 1, .none, .flt 4, .nan, .str "x1"]), ("b", [.str "x", .str "y", .none, .str "xy", .int 2])]
 
 example : tbl.Rect 5 ∧ tbl ≠ [] ∧ tbl.has "a" = true ∧ tbl.has "b" = true := by decide
-example : tbl.sat [("a", .oneOf [.int 1]), ("b", .regex "x")] 0 = true := by decide
+example : tbl.sat [("a", .oneOf [.int 1]), ("b", .regex (RePat.lit "x").search)] 0 = true := by decide
 /-- `1 == 1.0`: the int 1 and the float 1.0 (`flt 4`) both match -/
 example : tbl.inc Option.none [("a", .oneOf [.int 1])] = .ok [("a", [.int 1, .flt 4]), ("b", [.str "x", .none])] := by rfl
 example : tbl.exc Option.none [("a", .oneOf [.int 1])] =
     .ok [("a", [.none, .nan, .str "x1"]), ("b", [.str "y", .str "xy", .int 2])] := by rfl
-example : tbl.inc Option.none [("a", .isNaN), ("b", .regex "y")] = .ok [("a", [.nan]), ("b", [.str "xy"])] := by rfl
+example : tbl.inc Option.none [("a", .isNaN), ("b", .regex (RePat.lit "y").search)] = .ok [("a", [.nan]), ("b", [.str "xy"])] := by rfl
 example : tbl.inc Option.none [("a", .oneOf [])] = .ok [("a", []), ("b", [])] := by rfl
 example : tbl.find "b" Option.none [("a", .isNone)] = .ok (.str "y") := by rfl
 example : tbl.find "b" Option.none [("a", .oneOf [.int 1])] = .error .value := by rfl
 example : tbl.find "b" Option.none [("a", .oneOf [.int 99])] = .error .value := by rfl
+
+
+/-- a predicate of the row's cells: `lambda a, b: a is None or b == 'x'` -/
+def qrow (r : List (String × Cell)) : Bool := (r.lookup "a" == some .none) || (r.lookup "b" == some (.str "x"))
+example : tbl.inc (some fun t' i => .ok (qrow (rowDict t' i))) [] =
+    .ok [("a", [.int 1, .none]), ("b", [.str "x", .str "y"])] := by rfl
+example : tbl.exc (some fun t' i => .ok (qrow (rowDict t' i))) [] =
+    .ok [("a", [.flt 4, .nan, .str "x1"]), ("b", [.none, .str "xy", .int 2])] := by rfl
+/-- `inc_fn_error`: the menu callable `lambda q: q is None` on a table without a column `q` raises on row 0 -/
+example : (Pred.isNone "q").eval tbl 0 = .error .type ∧ tbl.inc (some (Pred.isNone "q").eval) [] = .error .type := by
+  constructor <;> rfl
+example : tbl.find "b" (some fun t' i => .ok (qrow (rowDict t' i))) [] = .error .value := by rfl
+/-- `exc_missing_key` / `exc_missing_key_empty` -/
+example : tbl.exc Option.none [("a", .isNone), ("q", .isNone)] = .error .key := by rfl
+example : Table.exc [("a", [])] Option.none [("q", .isNone)] = .ok [("a", [])] := by rfl
+/-- NaN: a NaN cell is selected by a list holding NaN; ±inf are values, not NaN -/
+example : (Cond.oneOf [.nan, .int 5]).test .nan = true ∧ Cond.isNaN.test .pinf = false ∧
+    (Cond.ofValue (.one .pinf)).test .pinf = true ∧ (Cond.ofValue (.one .pinf)).test .nan = false := by decide
+example : Table.find [("x", [.nan, .nan]), ("y", [.int 1, .int 1])] "x" Option.none [("y", .oneOf [.int 1])] = .ok .nan := by rfl
+/-- the driver's patterns: `^x`, `a.c`, `x` with re.I -/
+example : (RePat.mk true false false [some 'x']).search "xa" = true ∧ (RePat.mk true false false [some 'x']).search "ax" = false ∧
+    (RePat.mk false false false [some 'a', Option.none, some 'c']).search "zaxcz" = true ∧
+    (RePat.mk false true true [some 'x']).search "aX" = true ∧ (RePat.mk false true false [some 'x']).search "xa" = false := by
+  decide
 
 end Pyg.Props.C06
